@@ -40,6 +40,7 @@ class Prop(common.PropertyCheck):
                  [(p, h, ni, ca) for p in (False, True) for h in (False, True) for ni in (1, 2) for ca in (1, 2, 3, 4)]
         # an instrument with 12 fluorescence channels, all reported and plotted
         yield {'k': 'run', 'plot': True, 'hist': rng.random() < 0.5, 'ninst': 1, 'arity': 1, 'default_out': False, 'rel_out': True, 'seed': rng.randrange(1 << 30), 'inp_name': 'wide', 'wide': 12}
+        yield {'k': 'run', 'plot': True, 'hist': False, 'ninst': 2, 'arity': 2, 'default_out': False, 'rel_out': True, 'seed': rng.randrange(1 << 30), 'inp_name': 'twice', 'again': True}
         for ci, (plot, hist, ninst, arity) in enumerate(combos):
             yield {'odd_headers': ci % 2 == 0, 'k': 'run', 'plot': plot, 'hist': hist, 'ninst': ninst, 'arity': arity, 'default_out': rng.random() < 0.5 or (plot and not hist), 'rel_out': True, 'seed': rng.randrange(1 << 30),
                    'inp_name': rng.choice(['samples', 'cells', 'mix.xls', 'xlsx', 'results.'] + ([] if (plot and not hist) else ['experiment', 'plate_07']))}
@@ -135,7 +136,11 @@ class Prop(common.PropertyCheck):
                                                  extra={'Strain': 'v', 'Dose': 4}))
             if case['ninst'] == 2:
                 ex.write_fcs('FCFiles/t0.fcs', 'FC002', n=650, seed=case['seed'] % 1000 + 7)
-                srows.append(excelgen.sample_row('T0', 'FC002', 'FCFiles/t0.fcs', {'GFP-A': 'RFI'}, None, extra={'Strain': 'z', 'Dose': 2}))
+                # the second instrument has a channel whose name contains blanks; it is calibrated by its own beads row
+                ex.write_fcs('FCFiles/beads2.fcs', 'FC002', kind='beads', n=1400, seed=case['seed'] % 1000 + 2)
+                brows.append(excelgen.beads_row('B4', 'FC002', 'FCFiles/beads2.fcs', channels=('PE-Texas Red-A',), clustering=('PE-Texas Red-A', 'GFP-A'),
+                                                mef={'PE-Texas Red-A': excelgen.MEF_VALUES['FL2']}))
+                srows.append(excelgen.sample_row('T0', 'FC002', 'FCFiles/t0.fcs', {'GFP-A': 'RFI', 'PE-Texas Red-A': 'MEF'}, 'B4', extra={'Strain': 'z', 'Dose': 2}))
             beads = pd.DataFrame(brows)
             samples = pd.DataFrame(srows)
             if case.get('odd_headers', case['seed'] % 2):
@@ -161,6 +166,10 @@ class Prop(common.PropertyCheck):
                     warnings.simplefilter('ignore')
                     np.random.seed(9)
                     FlowCal.excel_ui.run(input_path=inp_arg, output_path=outp, verbose=False, plot=case['plot'], hist_sheet=case['hist'])
+                    if case.get('again'):
+                        # the same folder processed a second time (figures and folders of the first run exist)
+                        np.random.seed(9)
+                        FlowCal.excel_ui.run(input_path=inp_arg, output_path=outp, verbose=False, plot=case['plot'], hist_sheet=case['hist'])
                 if case.get('rel_out') and not case['default_out']:
                     outp = os.path.abspath(outp)
             finally:
